@@ -15,6 +15,7 @@ import (
 	"time"
 
 	"github.com/prometheus/prometheus/model/labels"
+	"github.com/prometheus/prometheus/promql/parser"
 
 	"github.com/thanos-community/promql-engine/logicalplan"
 )
@@ -322,7 +323,86 @@ func oracleProcs(c *Case) CaseResult {
 			return res
 		}
 	}
+	if d := topkStreamUnstable(c); d != "" {
+		res.Fail = d
+		res.Tags = nil
+	}
 	return res
+}
+
+// topkStreamUnstable: the stream a grouped topk/bottomk operator hands to its consumer - the
+// samples of every step in the order in which they are emitted - is the same in every evaluation.
+// The order is not visible in the operator's own result (assembled by series) but order-sensitive
+// consumers read it (an outer topk among equal values, a floating-point sum), exactly where the
+// comparisons of results have to stand back because the reference engine is not a function of
+// its inputs; so the repetition is checked at the source. Operands containing a vector/vector
+// join are left out (the numbering of a join's output series follows Go's map order).
+func topkStreamUnstable(c *Case) string {
+	expr, err := parser.ParseExpr(c.Query)
+	if err != nil {
+		return ""
+	}
+	w := c.Window
+	pend := w.End
+	if w.Instant() {
+		pend = w.Start
+	}
+	lp := logicalplan.New(expr, time.UnixMilli(w.Start), time.UnixMilli(pend)).Optimize(logicalplan.NoOptimizers).Expr()
+	var nodes []*parser.AggregateExpr
+	parser.Inspect(lp, func(n parser.Node, _ []parser.Node) error {
+		a, ok := n.(*parser.AggregateExpr)
+		if !ok || (a.Op != parser.TOPK && a.Op != parser.BOTTOMK) || (len(a.Grouping) == 0 && !a.Without) {
+			return nil
+		}
+		join := false
+		parser.Inspect(a.Expr, func(m parser.Node, _ []parser.Node) error {
+			if b, ok := m.(*parser.BinaryExpr); ok && b.LHS.Type() == parser.ValueTypeVector && b.RHS.Type() == parser.ValueTypeVector {
+				join = true
+			}
+			return nil
+		})
+		if !join && len(nodes) < 2 {
+			nodes = append(nodes, a)
+		}
+		return nil
+	})
+	render := func(s sideStream) []string {
+		out := make([]string, len(s.steps))
+		for i, st := range s.steps {
+			var sb strings.Builder
+			for j, id := range st.ids {
+				if int(id) < len(s.series) {
+					sb.WriteString(s.series[id].String())
+				}
+				fmt.Fprintf(&sb, "=%x;", math.Float64bits(st.vals[j]))
+			}
+			out[i] = sb.String()
+		}
+		return out
+	}
+	for _, a := range nodes {
+		first, ok := operandStream(a, c)
+		if !ok {
+			continue
+		}
+		want := render(first)
+		for rep := 0; rep < 4; rep++ {
+			again, ok := operandStream(a, c)
+			if !ok {
+				break
+			}
+			got := render(again)
+			if len(got) != len(want) {
+				return fmt.Sprintf("operator stream of %s: %d steps in one evaluation, %d in another", a.String(), len(want), len(got))
+			}
+			for i := range got {
+				if got[i] != want[i] {
+					return fmt.Sprintf("operator stream of %s differs between two evaluations at t=%d: %s vs %s", a.String(), first.steps[i].t, trunc(want[i], 200), trunc(got[i], 200))
+				}
+			}
+		}
+	}
+	return ""
 }
 
 // oraclePerm (C11, series order): permuting the storage's series order may only
